@@ -148,7 +148,7 @@ func init() {
 func init() {
 	properties["C12"] = Property{
 		Level: "exploration",
-		Rule:  "one case = one recorded history: 2-6 clients x 4-8 operations on 3 shared ids of one location (families: facts; rules+events; rules+enable+events; facts and rules on the same ids), unique written values, seeded delays at the verifhook points in two thirds of the histories, final reads of every id from the live and from a reloaded location; checked by porcupine against the sequential model (60 s timeout => inconclusive) and run under the race detector; non-trivial = >=2 clients overlapped in time and >=1 read observed a value written by another client; distinct by (seed, history index); plus `clearVsWrites` (4 writers and a clearer on a storage whose Clear is slow: live = reloaded, writes ordered against the last Clear) and `searchVsAdds` (ids with a past that left dangling term entries, 3 searchers and 3 adders, then a search must find every acknowledged fact, live and reloaded); every other block of 8 histories runs on a state with cron.AddHooks; `expiringItems`: rules with an expiry dispatched and fetched, expired facts searched and fetched by 6 clients at once; `renderedEvents`: 6 clients sending events to one location through the HTTP service (each answer rendered as JSON while the others are)",
+		Rule:  "one case = one recorded history: 2-6 clients x 4-8 operations on 3 shared ids of one location (families: facts; rules+events; rules+enable+events; facts and rules on the same ids), unique written values, seeded delays at the verifhook points in two thirds of the histories, final reads of every id from the live and from a reloaded location; checked by porcupine against the sequential model (60 s timeout => inconclusive) and run under the race detector; non-trivial = >=2 clients overlapped in time and >=1 read observed a value written by another client; distinct by (seed, history index); plus `clearVsWrites` (4 writers and a clearer on a storage whose Clear is slow: live = reloaded, writes ordered against the last Clear) and `searchVsAdds` (ids with a past that left dangling term entries, 3 searchers and 3 adders, then a search must find every acknowledged fact, live and reloaded); every other block of 8 histories runs on a state with cron.AddHooks; `expiringItems`: rules with an expiry dispatched and fetched, expired facts searched and fetched by 6 clients at once; `renderedEvents`: 6 clients sending events to one location through the HTTP service (each answer rendered as JSON while the others are); (batch 1) `remRuleDuels`: RemRule(r) against AddRule(r) + EnableRule(r,false), 3000 rounds per state; `expiringItems` duels: two gets and one add released together for each of 300 expired ids",
 		Floor: [2]int{50, 500},
 		Assumptions: []string{"the sequential model in mon/c12 (a map id -> fact/rule plus disabled flags) is the specification", "a strict-model failure that the relaxed model pe-two-instant accepts is attributed to the open finding c12.pe-two-instant", "schedules are sampled (stress + injected delays), not enumerated"},
 		Stages: []Stage{{Name: "histories", Pkg: "./mon/c12", Race: true, Procs: 8, Batches: [2]int{4, 8}, TimeoutS: [2]int{1200, 3600}, HangIsViolation: true}},
